@@ -29,8 +29,22 @@ func spawnedResultPassesThrough(c *core.Ctx) {
 		defers := false
 		for _, b := range fn.Blocks {
 			for _, in := range b.Instrs {
-				if d, ok := in.(*ssa.Defer); ok && d.Call.StaticCallee() == disarm {
-					defers = true
+				if d, ok := in.(*ssa.Defer); ok {
+					if d.Call.StaticCallee() == disarm {
+						defers = true
+					}
+					// ... or a deferred function that disarms among other things
+					if mc, ok := d.Call.Value.(*ssa.MakeClosure); ok {
+						if cf, ok := mc.Fn.(*ssa.Function); ok {
+							for _, b2 := range cf.Blocks {
+								for _, in2 := range b2.Instrs {
+									if ci, ok := in2.(ssa.CallInstruction); ok && ci.Common().StaticCallee() == disarm {
+										defers = true
+									}
+								}
+							}
+						}
+					}
 				}
 			}
 		}
